@@ -552,7 +552,12 @@ func init() {
 				}
 			}
 			objs = realSizes(objs, times)
-			refs := genE2ERefs(r, objs)
+			var refs []string
+			for _, rf := range genE2ERefs(r, objs) {
+				if !strings.Contains(strings.SplitN(rf, "=", 2)[1], "@") { // symbolic references: not part of this engine's fragment
+					refs = append(refs, rf)
+				}
+			}
 			for _, nm := range []string{"refs/heads/a{b", "refs/heads/c}d", "refs/heads/e{f}g", "refs/tags/}{"} {
 				dup := false
 				for _, rf := range refs {
